@@ -581,6 +581,61 @@ def run(ck):
     conflict = [c_ for c_ in rz if any(a[0] == 'Eq' and any('.get(attr, value)' in x for x in a[1:]) and 'value' in a[1:] for a in flow.atoms_of(c_))]
     ck.ob('PROV-sections', ff.loc(plk), ok and len(conflict) == 1, 'a link / modification [ atoms ] line defines the atom under its normalised key with its own attributes, then the link-wide ones, '
           'then what an earlier line said, then the defaults; a contradiction with an earlier definition is an error', key='PROV-sections|link-atom')
+    # ------------------------------------------------------------- #ifdef / #ifndef / #else / #endif: the condition recorded on the lines that follow
+    pp = ck.need(method(itpd, 'parse_pragma'), 'ITPDirector.parse_pragma vanished')
+    ck.analysed(itp, pp)
+    states = [None, {'tag': 'FLEX', 'condition': 'ifdef'}, {'tag': 'FLEX', 'condition': 'ifndef'}]
+    flip = {'ifdef': 'ifndef', 'ifndef': 'ifdef'}
+    bad = []
+    ncase = 0
+    try:
+        for state in states:
+            for line in ('#endif', '#else', '#ifdef POSRES', '#ifndef POSRES', '#define X 1', '#include "a.itp"', '#if X'):
+                ncase += 1
+                env = {'self.current_meta': dict(state) if state else None, 'line': line, 'lineno': 7}
+                got = interp.call(pp.body, env)
+                after = ('raise',) if isinstance(got, tuple) and got and got[0] == 'raise' else env.get('self.current_meta')
+                # interp.call works on a copy of env: re-run on the env itself to observe the state
+                env2 = {'self.current_meta': dict(state) if state else None, 'line': line, 'lineno': 7}
+                try:
+                    interp.run_stmts(pp.body, env2)
+                    after = env2.get('self.current_meta')
+                except interp.Returned as r_:
+                    after = ('raise',) if isinstance(r_.value, tuple) and r_.value and r_.value[0] == 'raise' else env2.get('self.current_meta')
+                if line == '#endif':
+                    want = None if state else ('raise',)
+                elif line == '#else':
+                    want = {'tag': state['tag'], 'condition': flip[state['condition']]} if state else ('raise',)
+                elif line.startswith('#ifdef') or line.startswith('#ifndef'):
+                    want = {'tag': 'POSRES', 'condition': line.split()[0][1:]} if state is None else ('raise',)
+                elif line.startswith('#define'):
+                    want = state
+                else:
+                    want = ('raise',)
+                if after != want:
+                    bad.append('state {} + "{}": {} (expected {})'.format(state, line, after, want))
+    except interp.Unsupported as err:
+        bad = ['outside the interpretable fragment: {}'.format(err)]
+    except (TypeError, KeyError, AttributeError, ValueError) as err:
+        bad = ['the interpreted function fails: {}: {}'.format(type(err).__name__, err)]
+    ck.ob('DT-pragma', itp.loc(pp), not bad, 'parse_pragma, interpreted over {} (state, line) cases: #ifdef/#ifndef open a condition with that tag, #else turns exactly that condition round, '
+          '#endif closes it, nesting / stray #else / #endif / unknown pragmas are errors{}'.format(ncase, '' if not bad else ' -- ' + ' || '.join(bad[:3])), key='DT-pragma|state-machine')
+    # ------------------------------------------------------------- .mapping atoms: every atom gets its own copy of the identifier's attributes
+    ras = ck.need(method(mapd, '_resolve_atom_spec'), 'MappingDirector._resolve_atom_spec vanished')
+    ck.analysed(mp, ras)
+    rets = [r for r in walk_local(ras) if isinstance(r, ast.Return) and r.value is not None]
+    ok = len(rets) == 1 and isinstance(rets[0].value, ast.Name)
+    if ok:
+        rv = rets[0].value.id
+        defs = assignments_to(ras, rv)
+        fresh = all((isinstance(d, ast.Call) and (call_attr(d) in ('copy', 'deepcopy') or call_name(d) in ('dict', 'copy.copy', 'copy.deepcopy'))) or isinstance(d, ast.Dict) for d in defs)
+        srcs = sorted(u(d.func.value) if isinstance(d, ast.Call) and isinstance(d.func, ast.Attribute) else u(d) for d in defs)
+        name_store = [s_ for s_ in walk_local(ras) if isinstance(s_, ast.Assign) and u(s_.targets[0]) == "{}['atomname']".format(rv) and u(s_.value) == 'name']
+        cur = [s_ for s_ in walk_local(ras) if isinstance(s_, ast.Assign) and u(s_.targets[0]) == 'self._current_id[prefix]']
+        ok = bool(defs) and fresh and srcs == sorted(['self._current_id[prefix]', 'self.identifiers[prefix, id_]']) and len(name_store) == 1 and \
+            len(cur) == 1 and u(cur[0].value) == 'self.identifiers[prefix, id_]'
+    ck.ob('ALIAS-copy', mp.loc(ras), ok, 'the attributes of a mapping atom are a fresh copy of its identifier\'s attributes (the explicit identifier, else the last one used) plus its own '
+          'atom name; nothing written for one atom can reach the next', key='ALIAS-copy|map-atom-attributes')
     prefix_order_table(ck, ff)
     shared.truthy_zero(ck, [FF, ITP, PU, MAP, 'vermouth/map_input.py'])
     ck.assume('token-level grammar, macro substitution results and .map weight arithmetic are not decided')
